@@ -91,3 +91,75 @@ def sweep(tier, seed):
             'bounded': True, 'bound': 'message family of %d messages x all 2-piece%s segmentations + byte-by-byte' % (
                 len(family()), ' and 3-piece' if tier != 'quick' else ''),
             'cases': n, 'violations': bad[:3]}
+
+
+def hostile_inputs(tier, seed):
+    """(parser type, bytes): malformed framing fields (grid) and randomly damaged family messages"""
+    import random
+    rnd = random.Random(seed * 31 + 7)
+    cl = [b'0', b'5', b'-1', b'-5', b'+5', b' 5', b'5 ', b'x', b'', b'5, 6', b'00', b'0x5', b'99999999999999999999', b'5.0', b'1e1']
+    sizes = [b'0', b'5', b'-1', b'-5', b'+5', b' 5', b'g', b'', b';', b';x', b'0x5', b'5;ext', b'ffffffffffffffff', b'-0', b'5 5']
+    msgs = []
+    for a in cl:
+        msgs.append((1, b'POST /p HTTP/1.1\r\nHost: h\r\nContent-Length: ' + a + b'\r\n\r\nhello world'))
+        for b in (b'0', b'-3', b'7', b'x'):
+            msgs.append((1, b'POST /p HTTP/1.1\r\nContent-Length: ' + a + b'\r\nContent-Length: ' + b + b'\r\n\r\nhello world'))
+            msgs.append((2, b'HTTP/1.1 200 OK\r\ncontent-length: ' + a + b'\r\nCONTENT-LENGTH: ' + b + b'\r\n\r\nhello world'))
+        msgs.append((1, b'POST /p HTTP/1.1\r\nTransfer-Encoding: chunked\r\nContent-Length: ' + a + b'\r\n\r\n5\r\nhello\r\n0\r\n\r\n'))
+    for z in sizes:
+        for tail in (b'\r\nhello\r\n0\r\n\r\n', b'\r\n', b'\r\nhello world, more than five bytes\r\n'):
+            msgs.append((1, b'PUT /x HTTP/1.1\r\nTransfer-Encoding: chunked\r\n\r\n' + z + tail))
+            msgs.append((2, b'HTTP/1.1 200 OK\r\ntransfer-encoding: CHUNKED\r\n\r\n3\r\nabc\r\n' + z + tail))
+    msgs += [(1, b'GET /caf\xe9 HTTP/1.1\r\nHost: x\r\n\r\n'), (1, b'GET /\xff\xfe?q=1 HTTP/1.1\r\n\r\n'), (1, b'GET /a/../../etc/passwd HTTP/1.1\r\n\r\n'),
+             (1, b'GET / HTTP/1.1\r\nHost: \xff\r\n\r\n'), (1, b'POST /x HTTP/1.1\r\nContent-Length: 3\r\n\r\n\xff\xfe\xfd'),
+             (1, b'GET http://h.example/\xe9 HTTP/1.1\r\nHost: h.example\r\n\r\n'), (1, b'CONNECT h.example:44\xb3 HTTP/1.1\r\n\r\n')]
+    msgs += [(1, b'\r\n\r\n'), (1, b'GET\r\n\r\n'), (2, b'HTTP/1.1\r\n\r\n'), (1, b'GET / HTTP/1.1\r\nNoColon\r\n\r\n'),
+             (1, b'GET / HTTP/1.1\r\n: v\r\n\r\n'), (1, b'GET / HTTP/1.1\nHost: h\n\n'), (2, b'HTTP/1.1 200 OK\r\r\n\r\n'),
+             (1, b'GET / HTTP/1.1\r\nTransfer-Encoding: chunked\r\nTransfer-Encoding: identity\r\n\r\n0\r\n\r\n')]
+    base = [m for _, m, _ in family()]
+    types = [t for t, _, _ in family()]
+    for _ in range(200 if tier == 'quick' else 3000):
+        i = rnd.randrange(len(base))
+        m = bytearray(base[i])
+        for _k in range(rnd.choice([1, 1, 2, 3])):
+            op = rnd.random()
+            pos = rnd.randrange(len(m)) if m else 0
+            if op < 0.4 and m:
+                m[pos] = rnd.choice(b'\r\n:-0 5;x\x00\xff')
+            elif op < 0.7 and m:
+                del m[pos]
+            else:
+                m[pos:pos] = rnd.choice([b'\r\n', b'-', b'0', b':', b'Content-Length: 0\r\n', b' '])
+        msgs.append((types[i], bytes(m)))
+    return msgs
+
+
+def hostile(tier, seed):
+    """Bounded stand-in for `every byte sequence`: malformed framing fields and randomly damaged
+    messages, fed whole and byte by byte to the real parser under a watchdog.  The parser may return in
+    any state or raise -- it must not spin (the worker calling it serves other connections too)."""
+    from proxy.http.parser import HttpParser
+    from pyvc.guard import time_limit, NativeTimeout
+    msgs = hostile_inputs(tier, seed)
+    bad, n = [], 0
+    for t, m in msgs:
+        for mode in ('whole', 'bytewise'):
+            p = HttpParser(t)
+            try:
+                with time_limit(5):
+                    if mode == 'whole':
+                        p.parse(memoryview(m))
+                    else:
+                        for i in range(len(m)):
+                            p.parse(memoryview(m[i:i + 1]))
+            except NativeTimeout:
+                bad.append({'input': m[:120].decode('latin-1'), 'fed': mode, 'parser_type': t,
+                            'what': 'parse() does not return within 5 s: one client can hang the worker'})
+            except Exception:       # noqa  rejecting malformed input is fine
+                pass
+            n += 1
+        if len(bad) > 5:
+            break
+    return {'name': 'hostile-input sweep of HttpParser (termination on malformed and damaged messages)', 'bounded': True,
+            'bound': '%d inputs (framing-field grid + seeded random damage), whole and byte by byte, 5 s watchdog' % len(msgs),
+            'cases': n, 'violations': bad[:3]}
